@@ -109,7 +109,14 @@ def finish(prop, tier, seed, result, evid_path):
     known = [k for k in load_known() if k.get('property') == prop and k.get('status') == 'open']
     violations = []
     known_hits = []
+    seen_ob = set()
+    uniq = []
     for f in result['failures']:
+        if f.get('obligation') in seen_ob:
+            continue
+        seen_ob.add(f.get('obligation'))
+        uniq.append(f)
+    for f in uniq:
         hit = None
         for k in known:
             if k.get('obligation') == f.get('obligation'):
